@@ -105,7 +105,17 @@ func checkInstanceRing(t *testing.T, run *vt.Run, c vt.CaseID, rng *rand.Rand, i
 		}
 		st := rk.NewStore()
 		st.RecordGets = false
-		st.Put("harness", rk.Key, rk.Desc(insts))
+		desc := rk.Desc(insts)
+		if rng.IntN(3) == 0 {
+			// the stored token lists need not be sorted (descriptors written by older versions): the ring client
+			// sorts what it loads; ranges and lookups must agree all the same
+			for id, e := range desc.Ingesters {
+				rng.Shuffle(len(e.Tokens), func(i, j int) { e.Tokens[i], e.Tokens[j] = e.Tokens[j], e.Tokens[i] })
+				desc.Ingesters[id] = e
+			}
+			run.Count("layouts_stored_with_unsorted_token_lists", 1)
+		}
+		st.Put("harness", rk.Key, desc)
 		r, stop, err := rk.StartRing(rk.Cfg(zones, true, time.Minute), st.Client("ring"), rk.Key)
 		if err != nil {
 			run.Inconclusive("ring start: " + err.Error())
